@@ -51,6 +51,7 @@
 #include "generated/cjet_config.h"
 #include "generated/os_config.h"
 #include "hashtable.h"
+#include "jet_random.h"
 DECLARE_HASHTABLE_STRING(simk_tab, CONFIG_ROUTING_TABLE_ORDER, 1)
 #include "linux/eventloop_epoll.h"
 #include "linux/linux_io.h"
@@ -1041,6 +1042,7 @@ int main(int argc, char **argv)
 	}
 	free(lineb);
 
+	if (init_random() < 0) { out("FATAL random source"); return 2; }
 	init_parser();
 	if (load_passwd_data(config.passwd_file) < 0) { out("FATAL cannot load password file"); return 2; }
 	signal(SIGPIPE, SIG_IGN);
@@ -1061,6 +1063,7 @@ int main(int argc, char **argv)
 	snapshot("FINAL");
 	element_hashtable_delete();
 	free_passwd_data();
+	close_random();
 	out("EXIT heap_total=%zu", cjet_get_alloc_size());
 	return 0;
 }
